@@ -238,6 +238,69 @@ pub fn shard_run(tier: &str, seed: u64, shard: Shard) -> ShardOut {
             }
         }
     }
+    // ---- the real executable is killed while client A uploads a large snapshot; after the restart
+    // client B stores a short snapshot: B is served exactly its own bytes
+    if shard.mine(3) || shard.mine(4) {
+        use crate::http::{socket_request, Framing};
+        use std::time::Duration;
+        if let Some(bin) = crate::net::server_bin() {
+            let dir = ScratchDir::new("c09kill");
+            let a = Rng::new(seed).fork(0xA9).uuid();
+            let mut rng = Rng::new(seed).fork(0xA90 + shard.k as u64);
+            let cycles = if thorough { 40 } else { 6 };
+            let start = |dir: &ScratchDir| -> Option<(crate::net::Proc, String)> {
+                for _ in 0..4 {
+                    let port = crate::net::free_port()?;
+                    let addr = format!("127.0.0.1:{port}");
+                    if let Ok(p) = crate::net::Proc::start(&bin, &["--listen".into(), addr.clone(), "--data-dir".into(), dir.path().to_string_lossy().to_string()], &[], &[addr.clone()], Duration::from_secs(20)) {
+                        return Some((p, addr));
+                    }
+                }
+                None
+            };
+            let mut a_latest = Uuid::nil();
+            for cyc in 0..cycles {
+                let Some((mut proc, addr)) = start(&dir) else { break };
+                // A: one more version, then a large snapshot that is in flight when the server dies
+                let r = socket_request(&addr, &Subject::build_http(a, &Req::AddVersion { parent: a_latest, data: format!("a-{cyc}").into_bytes() }), Framing::ContentLength, Duration::from_secs(20));
+                if let Resp::AddOk { vid, .. } = Subject::decode_http(&Req::AddVersion { parent: a_latest, data: vec![] }, &r) {
+                    a_latest = vid;
+                } else if let Resp::AddConflict { expected } = Subject::decode_http(&Req::AddVersion { parent: a_latest, data: vec![] }, &r) {
+                    a_latest = expected;
+                }
+                let big = PaySpec::new((6 << 20) + rng.usize(6 << 20), 0, seed ^ cyc as u64).bytes();
+                let (addr2, al) = (addr.clone(), a_latest);
+                let up = std::thread::spawn(move || {
+                    let _ = socket_request(&addr2, &Subject::build_http(a, &Req::AddSnapshot { vid: al, data: big }), Framing::ContentLength, Duration::from_secs(10));
+                });
+                std::thread::sleep(Duration::from_micros(rng.range(2_000, 45_000)));
+                proc.kill9();
+                let _ = up.join();
+                drop(proc);
+                // B after the restart
+                let Some((mut proc, addr)) = start(&dir) else { break };
+                let b = rng.uuid_any();
+                let bdata = PaySpec::new(2000 + rng.usize(40_000), 9, seed ^ 0xB ^ cyc as u64).bytes();
+                let r1 = socket_request(&addr, &Subject::build_http(b, &Req::AddVersion { parent: Uuid::nil(), data: b"b-1".to_vec() }), Framing::ContentLength, Duration::from_secs(20));
+                let bv = r1.header("X-Version-Id").and_then(|s| Uuid::parse_str(s).ok()).unwrap_or(Uuid::nil());
+                let _ = socket_request(&addr, &Subject::build_http(b, &Req::AddSnapshot { vid: bv, data: bdata.clone() }), Framing::ContentLength, Duration::from_secs(20));
+                let got = socket_request(&addr, &Subject::build_http(b, &Req::GetSnapshot), Framing::ContentLength, Duration::from_secs(20));
+                proc.kill9();
+                cov.evaluations += 1;
+                cov.hit("killed-during-another-clients-large-upload".into());
+                if got.status != 200 || got.body != bdata {
+                    out.found.push(Found {
+                        property: "C09".into(),
+                        signature: "C09:kill during upload".into(),
+                        msg: format!("the server was killed while client A uploaded a large snapshot; after the restart client B stored a snapshot of {} bytes and is served status {} with {} bytes that differ from its upload at offset {:?}", bdata.len(), got.status, got.body.len(), crate::ops::first_diff(&got.body, &bdata)),
+                        replay: json!({"origin": "c09-kill", "case": cyc, "note": "kill instant is random"}),
+                    });
+                    out.cov = cov;
+                    return out;
+                }
+            }
+        }
+    }
     // ---- many clients on one long-lived server: client A acts, more than a thousand other clients
     // act once each, A acts again: A is answered as if the others had not been there
     if shard.mine(2) {
